@@ -595,5 +595,6 @@ pub fn parts() -> Vec<Box<dyn PartDyn>> {
         enumerate: None,
         shrink_budget: 100,
         confirm_runs: 2,
+            fuzz: None,
     })]
 }
